@@ -176,6 +176,8 @@ func GenSetN(s gen.Src, module string, npkgs int) (*Set, map[string]bool) {
 		files[0].Options = []Option{{Name: "go_package", Value: pkg.GoPath}}
 		// imports (same in every file that needs them; simpler: all files import the chosen packages)
 		var av avail
+		ownAlias := false
+		var collide []string // names of types imported under the package's own name
 		for _, ex := range prev {
 			if s.Intn(2, "doimport") == 0 {
 				continue
@@ -184,8 +186,19 @@ func GenSetN(s gen.Src, module string, npkgs int) (*Set, map[string]bool) {
 			ref := ex.pkg.ID
 			if s.Intn(2, "alias") == 0 {
 				alias = fmt.Sprintf("x%s", ex.pkg.ID)
+				if !ownAlias && s.Intn(2, "ownalias") == 0 {
+					// the import is named like the importing package itself: qualified references
+					// still mean the import, also when a local definition has the same name
+					alias, ownAlias = id, true
+					g.Feats["import-alias-equals-own-package-name"] = true
+				}
 				ref = alias
 				g.Feats["import-alias"] = true
+			}
+			if alias == id {
+				collide = append(collide, ex.enums...)
+				collide = append(collide, ex.structs...)
+				collide = append(collide, ex.messages...)
 			}
 			for _, f := range files {
 				f.Imports = append(f.Imports, Import{Alias: alias, ID: ex.pkg.ID})
@@ -203,6 +216,14 @@ func GenSetN(s gen.Src, module string, npkgs int) (*Set, map[string]bool) {
 		ex := exported{pkg: pkg}
 		file := func() *File { return files[s.Intn(len(files), "file")] }
 		name := func(prefix string) string {
+			if len(collide) > 0 && s.Intn(2, "collide") == 0 {
+				// a local definition named like a type of that import (of any kind)
+				k := s.Intn(len(collide), "collidewith")
+				n := collide[k]
+				collide = append(collide[:k], collide[k+1:]...)
+				g.Feats["local-name-equals-name-imported-under-own-package-name"] = true
+				return n
+			}
 			g.seq++
 			return fmt.Sprintf("%s%d%c", prefix, g.seq, 'A'+byte(s.Intn(26, "defsuffix")))
 		}
